@@ -331,3 +331,36 @@ def ref_relative_to(path, base):
 
 def fill_compose(obj):
     obj.compose.id, obj.compose.type, obj.compose.date, obj.compose.respin = "F-22-20160622.n.3", "nightly", "20160622", 3
+
+
+# ---------------------------------------------------------------------------------------------------------------
+# a manifest is a mapping by variant: `del manifest[variant]` is part of its public face.  Histories that take part say so
+# (with_forgets): what was forgotten is gone, and what is added afterwards is filed in the manifest, not in what was dropped.
+
+def with_forgets(history):
+    @st.composite
+    def build(draw):
+        h = draw(history)
+        ops = list(h["ops"])
+        for f in draw(st.lists(st.integers(0, 400), max_size=2)):
+            variant = ops[(f // 7) % len(ops)].get("variant")
+            if isinstance(variant, str) and variant:
+                ops.insert(1 + f % len(ops), {"forget": True, "variant": variant, "how": ["variant", "arch"][f % 2]})
+        return dict(h, ops=ops)
+    return build()
+
+
+def forget(obj, table, model, op):
+    """executes a forget operation on the real manifest (`table` = its public mapping) and on the model; True if `op` was one"""
+    if not op.get("forget"):
+        return False
+    v = op["variant"]
+    if v in model:
+        if op["how"] == "arch" and model[v]:
+            arch = sorted(model[v])[0]
+            del obj[v][arch]
+            del model[v][arch]
+        else:
+            del obj[v]
+            del model[v]
+    return True
